@@ -31,9 +31,7 @@ import (
 // path name for a given file is not guaranteed to be unique.
 // Abs calls [Clean] on the result.
 func (vfs *BasePathFS) Abs(path string) (string, error) {
-	abs, err := vfs.baseFS.Abs(vfs.ToBasePath(path))
-
-	return vfs.FromBasePath(abs), vfs.FromPathError(err)
+	return avfs.Abs(vfs, path, vfs.curDir())
 }
 
 // Base returns the last element of path.
@@ -49,7 +47,7 @@ func (vfs *BasePathFS) Base(path string) string {
 func (vfs *BasePathFS) Chdir(dir string) error {
 	err := vfs.baseFS.Chdir(vfs.ToBasePath(dir))
 
-	return vfs.FromPathError(err)
+	return vfs.pathError(err, dir)
 }
 
 // Chmod changes the mode of the named file to mode.
@@ -73,7 +71,7 @@ func (vfs *BasePathFS) Chdir(dir string) error {
 func (vfs *BasePathFS) Chmod(name string, mode fs.FileMode) error {
 	err := vfs.baseFS.Chmod(vfs.ToBasePath(name), mode)
 
-	return vfs.FromPathError(err)
+	return vfs.pathError(err, name)
 }
 
 // Chown changes the numeric uid and gid of the named file.
@@ -86,7 +84,7 @@ func (vfs *BasePathFS) Chmod(name string, mode fs.FileMode) error {
 func (vfs *BasePathFS) Chown(name string, uid, gid int) error {
 	err := vfs.baseFS.Chown(vfs.ToBasePath(name), uid, gid)
 
-	return vfs.FromPathError(err)
+	return vfs.pathError(err, name)
 }
 
 // Chtimes changes the access and modification times of the named
@@ -98,7 +96,7 @@ func (vfs *BasePathFS) Chown(name string, uid, gid int) error {
 func (vfs *BasePathFS) Chtimes(name string, atime, mtime time.Time) error {
 	err := vfs.baseFS.Chtimes(vfs.ToBasePath(name), atime, mtime)
 
-	return vfs.FromPathError(err)
+	return vfs.pathError(err, name)
 }
 
 // Clean returns the shortest path name equivalent to path
@@ -188,9 +186,7 @@ func (vfs *BasePathFS) FromSlash(path string) string {
 // reached via multiple paths (due to symbolic links),
 // Getwd may return any one of them.
 func (vfs *BasePathFS) Getwd() (dir string, err error) {
-	dir, err = vfs.baseFS.Getwd()
-
-	return vfs.FromBasePath(dir), vfs.FromPathError(err)
+	return vfs.curDir(), nil
 }
 
 // Glob returns the names of all files matching pattern or nil
@@ -202,13 +198,7 @@ func (vfs *BasePathFS) Getwd() (dir string, err error) {
 // The only possible returned error is ErrBadPattern, when pattern
 // is malformed.
 func (vfs *BasePathFS) Glob(pattern string) (matches []string, err error) {
-	matches, err = vfs.baseFS.Glob(vfs.ToBasePath(pattern))
-
-	for i, m := range matches {
-		matches[i] = vfs.FromBasePath(m)
-	}
-
-	return matches, err
+	return avfs.Glob(vfs, pattern)
 }
 
 // Idm returns the identity manager of the file system.
@@ -243,7 +233,7 @@ func (vfs *BasePathFS) Join(elem ...string) string {
 func (vfs *BasePathFS) Lchown(name string, uid, gid int) error {
 	err := vfs.baseFS.Lchown(vfs.ToBasePath(name), uid, gid)
 
-	return vfs.FromPathError(err)
+	return vfs.pathError(err, name)
 }
 
 // Link creates newname as a hard link to the oldname file.
@@ -251,7 +241,7 @@ func (vfs *BasePathFS) Lchown(name string, uid, gid int) error {
 func (vfs *BasePathFS) Link(oldname, newname string) error {
 	err := vfs.baseFS.Link(vfs.ToBasePath(oldname), vfs.ToBasePath(newname))
 
-	return vfs.FromLinkError(err)
+	return vfs.linkError(err, oldname, newname)
 }
 
 // Lstat returns a FileInfo describing the named file.
@@ -261,7 +251,7 @@ func (vfs *BasePathFS) Link(oldname, newname string) error {
 func (vfs *BasePathFS) Lstat(path string) (fs.FileInfo, error) {
 	info, err := vfs.baseFS.Lstat(vfs.ToBasePath(path))
 
-	return info, vfs.FromPathError(err)
+	return info, vfs.pathError(err, path)
 }
 
 // Match reports whether name matches the shell file name pattern.
@@ -307,7 +297,7 @@ func (vfs *BasePathFS) Mkdir(name string, perm fs.FileMode) error {
 
 	err := vfs.baseFS.Mkdir(vfs.ToBasePath(name), perm)
 
-	return vfs.FromPathError(err)
+	return vfs.pathError(err, name)
 }
 
 // MkdirAll creates a directory named name,
@@ -320,7 +310,7 @@ func (vfs *BasePathFS) Mkdir(name string, perm fs.FileMode) error {
 func (vfs *BasePathFS) MkdirAll(path string, perm fs.FileMode) error {
 	err := vfs.baseFS.MkdirAll(vfs.ToBasePath(path), perm)
 
-	return vfs.FromPathError(err)
+	return vfs.pathError(err, path)
 }
 
 // MkdirTemp creates a new temporary directory in the directory dir
@@ -351,10 +341,10 @@ func (vfs *BasePathFS) Open(name string) (avfs.File, error) {
 func (vfs *BasePathFS) OpenFile(name string, flag int, perm fs.FileMode) (avfs.File, error) {
 	bf, err := vfs.baseFS.OpenFile(vfs.ToBasePath(name), flag, perm)
 	if err != nil {
-		return bf, vfs.FromPathError(err)
+		return bf, vfs.pathError(err, name)
 	}
 
-	f := &BasePathFile{vfs: vfs, baseFile: bf}
+	f := &BasePathFile{vfs: vfs, baseFile: bf, name: name}
 
 	return f, nil
 }
@@ -407,7 +397,7 @@ func (vfs *BasePathFS) Rel(basepath, targpath string) (string, error) {
 func (vfs *BasePathFS) Remove(name string) error {
 	err := vfs.baseFS.Remove(vfs.ToBasePath(name))
 
-	return vfs.FromPathError(err)
+	return vfs.pathError(err, name)
 }
 
 // RemoveAll removes path and any children it contains.
@@ -423,7 +413,7 @@ func (vfs *BasePathFS) RemoveAll(path string) error {
 
 	err := vfs.baseFS.RemoveAll(vfs.ToBasePath(path))
 
-	return vfs.FromPathError(err)
+	return vfs.pathError(err, path)
 }
 
 // Rename renames (moves) oldpath to newpath.
@@ -433,7 +423,7 @@ func (vfs *BasePathFS) RemoveAll(path string) error {
 func (vfs *BasePathFS) Rename(oldname, newname string) error {
 	err := vfs.baseFS.Rename(vfs.ToBasePath(oldname), vfs.ToBasePath(newname))
 
-	return vfs.FromLinkError(err)
+	return vfs.linkError(err, oldname, newname)
 }
 
 // SameFile reports whether fi1 and fi2 describe the same file.
@@ -483,14 +473,14 @@ func (vfs *BasePathFS) Split(path string) (dir, file string) {
 func (vfs *BasePathFS) Stat(path string) (fs.FileInfo, error) {
 	info, err := vfs.baseFS.Stat(vfs.ToBasePath(path))
 
-	return info, vfs.FromPathError(err)
+	return info, vfs.pathError(err, path)
 }
 
 // Sub returns an FS corresponding to the subtree rooted at dir.
 func (vfs *BasePathFS) Sub(dir string) (avfs.VFS, error) {
 	subFS, err := vfs.baseFS.Sub(vfs.ToBasePath(dir))
 
-	return subFS, vfs.FromPathError(err)
+	return subFS, vfs.pathError(err, dir)
 }
 
 // Symlink creates newname as a symbolic link to oldname.
@@ -536,7 +526,7 @@ func (vfs *BasePathFS) ToSysStat(info fs.FileInfo) avfs.SysStater {
 func (vfs *BasePathFS) Truncate(name string, size int64) error {
 	err := vfs.baseFS.Truncate(vfs.ToBasePath(name), size)
 
-	return vfs.FromPathError(err)
+	return vfs.pathError(err, name)
 }
 
 // UMask returns the file mode creation mask.
